@@ -7,20 +7,27 @@ CONFIG = dict(
     namespaces=["MahfModel.Props.C19"],
     shrink_lists=["pop"],
     level="proof",
-    rule=("(1) AcoGeneration alone on 3..8 cities with arbitrary pheromone matrices (constant, random, log-uniform "
-          "1e-12..1e6 with zeros, many ties, nearly evaporated 1e-300, huge), distances uniform / log-uniform 1e-6..1e6 / "
-          "two clusters, alpha, beta in {0,1,5} (+0.5,2,3), 0..8 ants, seeded Random; the sampling witness (index chosen "
-          "from `remaining` at every step) is recovered from the produced tours. (2) AsPheromoneUpdate / "
-          "MinMaxPheromoneUpdate alone on prepared populations (tours, truncated / repeated / rotated routes, equal "
-          "objective values), rho in {0,0.1,0.9,1} + random, bounds incl. min = 0 and min ~ max, 0..8 ants. (3) chains of "
-          "assembled generation -> PopulationEvaluator -> update steps where every reached matrix is the next input. "
-          "(4) 32 long runs (200 quick / 5000 thorough updates) of the shipped templates ant_system and max_min_ant_system "
-          "over the 4 parameter points of the shared template grid (incl. the degenerate-valid one) x 4 TSP instances under the step observer: every step is checked in-process (count, "
-          "permutation from city 0, finite, non-negative, within bounds), sampled steps (the first 60/200 and every 5th/20th, "
-          "with the matrix before and after and the parameters read back from the built configuration) are replayed by the model. A separate malformed stream (zero / negative / "
-          "NaN / infinite distances or pheromones, rho outside [0,1], min >= max, unevaluated or out-of-range individuals) only "
-          "checks agreement on the outcome. A case is non-trivial if it has at least 3 cities and one sampled ant or one "
-          "rewarded individual; distinct = distinct input."),
+    rule=("(1) AcoGeneration alone on instances of 1, 2, 3..8 and 9..12 cities (and, outside the property, 0 cities) with "
+          "arbitrary pheromone matrices (constant, random, log-uniform 1e-12..1e6 with zeros, many ties, nearly evaporated "
+          "1e-300, huge), distances uniform / log-uniform 1e-6..1e6 / two clusters / astronomically unequal (1e60..1e299 next "
+          "to 1e-6..1e6, so that (1/d)^beta underflows to 0), alpha, beta in {0,1,5} (+0.5,2,3), 0..8 ants, seeded Random, on a "
+          "state whose current population holds leftovers of an earlier pass (must be replaced, stack height unchanged); the "
+          "witnesses (index taken from `remaining` at every step, for the greedy route and for every sampled route) are "
+          "recovered from the produced tours. (2) AsPheromoneUpdate / MinMaxPheromoneUpdate alone on prepared populations "
+          "(tours, truncated / repeated / rotated routes, equal objective values, astronomically long tours, +inf objective), "
+          "rho in {0,0.1,0.9,1} + random, bounds incl. min = 0 and min ~ max, 0..8 ants, 1..12 cities. (3) chains of assembled "
+          "generation -> PopulationEvaluator -> update steps where every reached matrix is the next input. (4) 32 long runs "
+          "(200 quick / 5000 thorough updates) of the shipped templates ant_system and max_min_ant_system over the 4 parameter "
+          "points of the shared template grid (incl. the degenerate-valid one) x 4 TSP instances under the step observer: every "
+          "step is checked in-process (count, permutation from city 0, finite, non-negative, within bounds; first matrix = "
+          "default_pheromones everywhere as read back from the built configuration [init]; matrix before a generation = matrix "
+          "after the previous update, bit for bit [discontinuity]; population stack height unchanged by generation [stack]), "
+          "sampled steps (the first 60/200 and every 5th/20th, with the matrix before and after and the parameters read back "
+          "from the built configuration) are replayed by the model. A separate malformed stream (zero / negative / NaN / "
+          "infinite distances or pheromones, rho outside [0,1], min >= max, unevaluated or out-of-range individuals) checks "
+          "only what is determined there: update results, constructor errors, and that a produced population consists of "
+          "permutations from city 0. A case is non-trivial if it has one sampled ant or one rewarded individual; distinct = "
+          "distinct input."),
     nontrivial=lambda inp: (re.match(r"\((run|tstep) ", inp) is not None) or (
         re.search(r"\(ants [1-9]", inp) is not None or inp.count("(ind ") >= 2),
     trusted_base=[
@@ -29,27 +36,41 @@ CONFIG = dict(
         "Vec::remove / slice indexing represented by their list semantics",
         "PopulationEvaluator and the test problem's objective (closing-edge tour length) are the harness' Tsp"],
     assumptions=[
-        "valid parameters: 0 <= rho <= 1, decay coefficient >= 0, 0 <= min < max, positive finite distances between distinct cities, "
-        "alpha, beta in [0,5], non-negative finite pheromones, positive tour lengths; num_ants >= 0 (0 is accepted by every constructor)",
+        "valid parameters: 0 <= rho <= 1, decay coefficient >= 0, 0 <= min < max, finite distances >= 1e-9 between distinct cities "
+        "(no upper limit other than a finite tour length: up to 1e300), alpha, beta in [0,5], non-negative finite pheromones, "
+        "positive tour lengths (or +inf: no deposit); num_ants >= 0 (0 is accepted by every constructor); at least one city "
+        "(run theorems: at least two, so that tour lengths are positive)",
         "SplitMix64-seeded generators; mahf's Random seeded from the same stream"],
     timeout_quick=600,
     timeout_thorough=3600,
 )
 CONFIG.update(
     level_text=("Lean 4 theorems over a generic numeric carrier: AcoGeneration yields 1 + num_ants routes and every one is a "
-                "permutation of all cities starting at city 0 for EVERY pheromone matrix, distance function, exponent pair and legal "
-                "witness (each step removes the chosen index from `remaining`); the greedy route follows the (last) arg-max of the "
-                "pheromone row; in an ordered field the ant-system update is entry by entry (1-rho)*tau + sum over tours 1.. of "
-                "c/len * (number of consecutive-city edges {i,j}), symmetric matrices stay symmetric, entries stay non-negative, "
-                "the max-min update is clamp(min, max, (1-rho)*tau + 1/len_best * edges of the best sampled tour) and every entry is "
-                "within [min, max] whatever the old matrix was. The model is tied to /repo by running the real components alone, "
-                "assembled, and inside long runs of both templates, and diffing against the compiled model (K); the property's "
-                "executable clauses are evaluated on the implementation's outputs (O)."),
-    level_note=("The max-min theorems are total (any number of sampled individuals incl. num_ants = 0: evaporate + clamp, after fix "
-                "444b092 in /repo). Generation loops run in a worker process (address "
-                "space limited, killed and retried once before a case counts as `timeout`). "
+                "permutation of all cities starting at city 0 for EVERY pheromone matrix, distance function, exponent pair, legal "
+                "witness and every way of breaking ties in the greedy route (each step removes the chosen index from `remaining`); "
+                "the greedy route follows a maximal trail at every step whichever legal tie-breaking is used, and the code's "
+                "`max_by` (last maximum) is one legal tie-breaking; legal sampling witnesses exist and are never rejected, so on a "
+                "well-formed non-negative matrix with positive distances generation ALWAYS returns a population (exact arithmetic). "
+                "In an ordered field the ant-system update is entry by entry (1-rho)*tau + sum over tours 1.. of c/len * (number of "
+                "consecutive-city edges {i,j}) where that number is 1 for an edge of the tour and 0 otherwise (never the closing "
+                "edge), symmetric matrices stay symmetric, entries stay non-negative and bounded ((1-rho)*B + m*c/L; invariant bound "
+                "max(tau0, m*c/(rho*L))), the max-min update is clamp(min, max, (1-rho)*tau + 1/len_best on the edges of the best "
+                "sampled tour) and every entry is within [min, max] whatever the old matrix was. Run level (all histories): every "
+                "state reachable from init by any number of passes, any draws and any greedy tie-breaking is a well-formed "
+                "non-negative n x n matrix (within bounds after the first max-min update); on every reachable state no pass can "
+                "panic, every completed pass satisfies all generation and update clauses, and for legal draws the pass completes. "
+                "The model is tied to /repo by running the real components alone, assembled, and inside long runs of both templates, "
+                "and diffing against the compiled model (K); the property's executable clauses are evaluated on the "
+                "implementation's outputs (O)."),
+    level_note=("K is tie-agnostic where the property is: the greedy route is accepted for any maximal trail at each step "
+                "(witness-based), the max-min update for any of the tied best sampled tours. The max-min theorems are total (any "
+                "number of sampled individuals incl. num_ants = 0: evaporate + clamp, after fix 444b092 in /repo). Generation loops "
+                "run in a worker process (address space limited, killed and retried once before a case counts as `timeout`). "
                 "Trusted: Lean kernel; harness + driver parsing/printing. Modelled, not verified: rounding (theorems are exact "
                 "arithmetic; the tie compares floats with relative tolerance 1e-9), powf and rand's weighted sampling (any index of "
                 "`remaining` is a legal draw; the model only decides whether WeightedIndex::new can fail). partial: finiteness of the "
-                "trails is checked on the explored runs only (no overflow theorem for f64)."),
+                "trails in f64 is checked on the explored runs only (the bound theorems are exact arithmetic; with rho = 0 the "
+                "ant-system trails grow without bound by design). Observed, outside the property: on an instance without any "
+                "city generation returns the route [0]; distances below ~1e-62 with beta = 5 overflow (1/d)^beta and "
+                "WeightedIndex::new panics (the harness' domain starts at 1e-9)."),
 )
